@@ -332,6 +332,34 @@ def run(ctx):
                 except Exception:
                     pass  # judged by the monitor
             ctx.hit("workload:input and output variable of one name")
+        # rules that mention an input variable without terms through `any`, and rules whose connectives are written in capitals:
+        # if the library takes them (the pinned one refuses both), an engine it then reports ready can be processed
+        for i, rnd in ctx.cases("unusual rules", ctx.scale(30, 600)):
+            for variant in ("term-less variable with any", "connectives in capitals", "both"):
+                for missing in (None, "conjunction", "disjunction", "implication"):
+                    ivs = [fl.InputVariable("a", minimum=0.0, maximum=1.0, terms=[fl.Triangle("low", 0.0, 0.25, 0.5), fl.Triangle("high", 0.5, 0.75, 1.0)]), fl.InputVariable("spare", minimum=0.0, maximum=1.0)]
+                    ov = fl.OutputVariable("o", minimum=0.0, maximum=1.0, aggregation=fl.Maximum(), defuzzifier=fl.Centroid(20), terms=[fl.Triangle("x", 0.0, 0.5, 1.0)])
+                    AND, OR = ("AND", "Or") if variant != "term-less variable with any" else ("and", "or")
+                    spare = "spare is any" if variant != "connectives in capitals" else "a is any"
+                    texts = [f"if a is low {AND} {spare} then o is x", f"if a is high {OR} a is not low then o is x"]
+                    rb = fl.RuleBlock("rb", conjunction=fl.Minimum(), disjunction=fl.Maximum(), implication=fl.Minimum(), activation=fl.General(), rules=[fl.Rule.create(t) for t in texts])
+                    if missing:
+                        setattr(rb, missing, None)
+                    engine = fl.Engine("unusual", input_variables=ivs, output_variables=[ov], rule_blocks=[rb], load=False)
+                    try:
+                        rb.load_rules(engine)
+                        ctx.hit("unusual rules: loaded")
+                    except Exception:
+                        ctx.hit("unusual rules: refused")
+                    keep_alive.append(engine)
+                    mon.needs[id(engine)] = []
+                    engine.is_ready()
+                    ivs[0].value, ivs[1].value = rnd.random(), rnd.random()
+                    try:
+                        engine.process()
+                    except Exception:
+                        pass  # judged by the monitor
+            ctx.hit("workload:rules over a term-less variable / with connectives in capitals")
         mon.needs.clear()
         mon.verdict.clear()
         # engines with disabled variables, rule blocks and rules: which operators are still needed is not derived here (a
@@ -415,6 +443,7 @@ def run(ctx):
             ctx.hit("workload:shared defuzzifier object")
         probe.report(ctx)
         reach.report(ctx)
+    ctx.require("workload:rules over a term-less variable / with connectives in capitals")
     ctx.require("workload:input and output variable of one name", "event:engine reconfigured after a first verdict and asked again", "event:weighted output given an integral defuzzifier on the live engine", *[f"environment:{e}" for e in ENVIRONMENTS])
     ctx.require("workload:shared defuzzifier object", "workload:engines with disabled components", "workload:engine with a rule whose load is rejected", "workload:rule blocks with equal names", "workload:rule block with more than 32 rules", "workload:long Mamdani block fed batches")
     ctx.require("hook:Engine.is_ready", "hook:Engine.process", "event:is_ready:True", "event:is_ready:False", "event:process after ready", "converse:conjunction", "converse:disjunction", "converse:implication", "converse:aggregation", "converse:defuzzifier", "raise-site:Antecedent.activation_degree:missing operator surfaced", "raise-site:OutputVariable.defuzzify:missing operator surfaced")
